@@ -2,8 +2,9 @@
 import z3
 
 from pyvc.main import Prop
-from pyvc.values import Fn, Obj, Seq
+from pyvc.values import Fn, ModRef, Obj, Seq
 from . import spec_tree as T
+from . import lib, rb_common as R
 
 ST = "agilerl.components.segment_tree."
 RB = "agilerl.components.replay_buffer."
@@ -30,14 +31,35 @@ def tree_shape(P, name, cls, op):
 
 def opf(t):
     o = t.fields["operation"]
+    if isinstance(o, ModRef):
+        return T.zmin if o.dotted == "builtins.min" else (lambda a, b: a + b)
     if o.decl is not None:
         return lambda a, b: o.decl(a, b)
     return (lambda a, b: a + b) if o.name == "operator.add" else T.zmin
 
 
+WFq = z3.Function("WFq", T.A, z3.IntSort(), z3.IntSort(), z3.BoolSort())   # opaque: "every inner node = op(children)"
+
+
+def opcode(t):
+    o = t.fields["operation"]
+    if isinstance(o, ModRef):
+        return z3.IntVal(3 if o.dotted == "builtins.min" else 1)
+    if o.decl is not None:
+        return z3.Int("opcode!" + o.decl.name())
+    return z3.IntVal(1 if o.name == "operator.add" else 3)
+
+
 def WF(t):
+    """Tree representation invariant.  The quantified part is *opaque* (WFq) and revealed only inside the functions
+    and lemmas that look at tree nodes (reveal_wf), so callers are not burdened with it."""
     cap, tr = t.fields["capacity"], t.fields["tree"]
-    return z3.And(cap >= 1, T.is_pow2(cap), tr.len == 2 * cap, T.wf(tr.arr, cap, opf(t)))
+    return z3.And(cap >= 1, T.is_pow2(cap), tr.len == 2 * cap, WFq(tr.arr, cap, opcode(t)))
+
+
+def reveal_wf(t):
+    cap, tr = t.fields["capacity"], t.fields["tree"]
+    return WFq(tr.arr, cap, opcode(t)) == T.wf(tr.arr, cap, opf(t))
 
 
 def WF_except(t, idx):
@@ -52,8 +74,9 @@ def leaves_are(t, idx0, val, told):
     cap, tr, tro = t.fields["capacity"], t.fields["tree"], told.fields["tree"]
     j = z3.Int("j!lv")
     v = z3.ToReal(val) if val.sort() == z3.IntSort() else val
-    return z3.ForAll([j], z3.Implies(z3.And(cap <= j, j < 2 * cap),
-                                     tr.arr[j] == z3.If(j == idx0 + cap, v, tro.arr[j])))
+    return z3.ForAll([j], z3.Implies(z3.And(0 <= j, j < cap),
+                                     T.LEAF(tr.arr, cap, j) == z3.If(j == idx0, v, T.LEAF(tro.arr, cap, j))),
+                     patterns=[T.LEAF(tr.arr, cap, j)])
 
 
 def Fsum(t, a, b):
@@ -67,6 +90,7 @@ def Fmin(t, a, b):
 
 
 def lem_node_sum(t, node, lo, span):
+    # proved in spec_tree.lemmas() from the revealed definition of WF (WFq is *defined* as T.wf)
     return z3.Implies(WF(t), T.node_sum(t.fields["tree"].arr, t.fields["capacity"], node, lo, span))
 
 
@@ -89,7 +113,7 @@ def lem_nonneg(t, a, b):
 def leaves_nonneg(t):
     cap, tr = t.fields["capacity"], t.fields["tree"]
     j = z3.Int("j!ln")
-    return z3.ForAll([j], z3.Implies(z3.And(cap <= j, j < 2 * cap), tr.arr[j] >= 0))
+    return z3.ForAll([j], z3.Implies(z3.And(0 <= j, j < cap), T.LEAF(tr.arr, cap, j) >= 0), patterns=[T.LEAF(tr.arr, cap, j)])
 
 
 def geometry(t, node, lo, span):
@@ -104,7 +128,7 @@ def op_is_add(f):
 def build(tier):
     P = Prop("C11")
     P.axioms = T.pow2_axioms()
-    P.specns.update(dict(WF=WF, WF_except=WF_except, leaves_are=leaves_are, Fsum=Fsum, Fmin=Fmin, is_pow2=T.is_pow2,
+    P.specns.update(dict(WF=WF, reveal_wf=reveal_wf, WF_except=WF_except, leaves_are=leaves_are, Fsum=Fsum, Fmin=Fmin, is_pow2=T.is_pow2,
                          band=T.band, INF=T.INF, node_sum=lem_node_sum, node_min=lem_node_min, add_sum=lem_add_sum,
                          add_min=lem_add_min, nonneg=lem_nonneg, leaves_nonneg=leaves_nonneg, geometry=geometry))
     tree_shape(P, "Tree", ST + "SegmentTree", "uninterp")
@@ -117,13 +141,14 @@ def build(tier):
     P.contract(ST + "SegmentTree.__setitem__",
                params={"self": "obj:Tree", "idx": "int", "val": "real"},
                requires=["WF(self)", "0 <= idx", "idx < self.capacity"],
+               ghost_entry=["use(reveal_wf(self))"], ghost_exit=["use(reveal_wf(self))"],
                modifies=["self.tree"],
                loops={0: dict(invariant=["0 <= idx", "idx < self.capacity", "len(self.tree) == 2 * self.capacity",
                                          "WF_except(self, idx)",
                                          "leaves_are(self, old(idx), val, old(self))"],
                               decreases="idx")},
                ensures=["WF(self)", "leaves_are(self, old(idx), val, old(self))"],
-               witness={"self.capacity": 2, "self.tree": [0, 3, 1, 2], "idx": 1, "val": 5, "self.operation": op_is_add},
+               witness={"self.capacity": 2, "self.tree": [0, 3, 1, 2], "idx": 1, "val": 5, "self.operation": op_is_add, "fact:wf": "reveal_wf(self)"},
                replay="c11:setitem")
 
     # ---------------------------------------------------------------- SegmentTree.__getitem__
@@ -131,8 +156,384 @@ def build(tier):
                params={"self": "obj:Tree", "idx": "int"},
                requires=["WF(self)"],
                raises={"AssertionError": "not (0 <= idx and idx < self.capacity)"}, raises_iff=True,
-               ensures=["result == self.tree[self.capacity + idx]"], result="real",
-               witness={"self.capacity": 2, "self.tree": [0, 3, 1, 2], "idx": 1, "self.operation": op_is_add})
+               ensures=["result == self.tree[self.capacity + idx]", "result == tleaf(self, idx)"], result="real",
+               witness={"self.capacity": 2, "self.tree": [0, 3, 1, 2], "idx": 1, "self.operation": op_is_add, "fact:wf": "reveal_wf(self)"})
 
-    # ---------------------------------------------------------------- SegmentTree.__init__
+    more(P)
+    per_contracts(P)
+    P.specns['H0'] = z3.Const('H0', z3.ArraySort(z3.IntSort(), R.Row))
     return P
+
+
+def unfold_sum(t, a, b):
+    return T.unfold_sum(t.fields["tree"].arr, t.fields["capacity"], z3.IntVal(a) if isinstance(a, int) else a,
+                        z3.IntVal(b) if isinstance(b, int) else b)
+
+
+def unfold_min(t, a, b):
+    return T.unfold_min(t.fields["tree"].arr, t.fields["capacity"], z3.IntVal(a) if isinstance(a, int) else a,
+                        z3.IntVal(b) if isinstance(b, int) else b)
+
+
+def tleaf(t, j):
+    return T.LEAF(t.fields["tree"].arr, t.fields["capacity"], j)
+
+
+def is_sum(t):
+    o = t.fields["operation"]
+    if isinstance(o, ModRef):
+        return o.dotted != "builtins.min"
+    return o.name == "operator.add"
+
+
+def Fold(t, a, b):
+    return Fsum(t, a, b) if is_sum(t) else Fmin(t, a, b)
+
+
+def node_fold(t, node, lo, span):
+    return lem_node_sum(t, node, lo, span) if is_sum(t) else lem_node_min(t, node, lo, span)
+
+
+def add_fold(t, a, m, b):
+    return lem_add_sum(t, a, m, b) if is_sum(t) else lem_add_min(t, a, m, b)
+
+
+def all_leaves(t, v):
+    cap, tr = t.fields["capacity"], t.fields["tree"]
+    j = z3.Int("j!al")
+    return z3.ForAll([j], z3.Implies(z3.And(0 <= j, j < 2 * cap), tr.arr[j] == v))
+
+
+POW = z3.Function("pow", z3.RealSort(), z3.RealSort(), z3.RealSort())
+
+
+def more(P):
+    P.specns.update(dict(Fold=Fold, node_fold=node_fold, add_fold=add_fold, all_leaves=all_leaves, tleaf=tleaf, pow=POW, unfold_sum=unfold_sum, unfold_min=unfold_min))
+    P.axioms += lib.pow_axioms(POW)
+    e_ = z3.Real("e!one")
+    P.axioms += [T.INF > 1, z3.ForAll([e_], POW(1, e_) == 1, patterns=[POW(1, e_)])]
+    lib.install(P, ["operator.add", "torch.zeros", "torch.rand"])
+    R.install(P)
+    P.trusted.append("pow(x,y) uninterpreted with axioms: positive for positive base; monotone in the base for exponent >= 0, antitone for <= 0")
+    P.trusted.append("is_pow2 axioms (arithmetic facts about powers of two; x & (x-1) == 0 iff power of two)")
+    P.trusted.append("induction on naturals for the F_sum/F_min lemmas (base + step obligations are discharged, the schema is trusted)")
+    P.assumptions += ["A-REAL: float arithmetic treated as real arithmetic (the sum-tree descent is NOT exact in IEEE doubles: "
+                      "l <= ub < fl(l+r) does not imply fl(ub-l) < r; the code carries a TODO for this)",
+                      "A-INT64: tensor indices are mathematical integers",
+                      "float('inf') is a real constant INF larger than every stored priority"]
+    W4 = {"self.capacity": 2, "self.tree": [0, 3, 1, 2], "fact:wf": "reveal_wf(self)"}
+    for variant, shape in (("sum", "SumTree"), ("min", "MinTree")):
+        # _operate_helper: recursive; the recursive calls are checked against this same contract
+        P.contract(ST + "SegmentTree._operate_helper", variant=None if variant == "sum" else variant,
+                   params={"self": "obj:" + shape, "start": "int", "end": "int", "node": "int", "node_start": "int",
+                           "node_end": "int"},
+                   requires=["WF(self)", "geometry(self, node, node_start, node_end - node_start + 1)",
+                             "node_start <= start", "start <= end", "end <= node_end"],
+                   lets={"span_": "node_end - node_start + 1"},
+                   ghost_entry=["use(reveal_wf(self))",
+                                "check(span_ == 1 or (span_ % 2 == 0 and span_ >= 2))",
+                                "arith(span_ == 1 or 2 * node * (span_ // 2) == self.capacity + node_start)",
+                                "arith(span_ == 1 or (2 * node + 1) * (span_ // 2) == self.capacity + node_start + span_ // 2)",
+                                "use(node_fold(self, node, node_start, node_end - node_start + 1))",
+                                "use(add_fold(self, start, (node_start + node_end) // 2 + 1, end + 1))"],
+                   decreases="node_end - node_start",
+                   modifies=[], result="real",
+                   ensures=["result == Fold(self, start, end + 1)"],
+                   witness=dict(W4, start=0, end=1, node=1, node_start=0, node_end=1) if variant == "sum" else
+                   {"self.capacity": 2, "self.tree": [0, 1, 1, 2], "start": 0, "end": 1, "node": 1, "node_start": 0, "node_end": 1, "fact:wf": "reveal_wf(self)"},
+                   replay="c11:operate")
+        P.contract(ST + "SegmentTree.operate", variant=None if variant == "sum" else variant,
+                   params={"self": "obj:" + shape, "start": "int", "end": "int"},
+                   requires=["WF(self)", "start >= 0", "end <= self.capacity", "end > -self.capacity",
+                             "start < (end if end > 0 else end + self.capacity)"],
+                   modifies=[], result="real",
+                   ensures=["result == Fold(self, old(start), (old(end) if old(end) > 0 else old(end) + self.capacity))"],
+                   witness=dict(W4, start=0, end=0) if variant == "sum" else
+                   {"self.capacity": 2, "self.tree": [0, 1, 1, 2], "start": 0, "end": 0, "fact:wf": "reveal_wf(self)"},
+                   replay="c11:operate")
+    # SumSegmentTree.retrieve: index whose mass interval contains the draw
+    P.contract(ST + "SumSegmentTree.retrieve",
+               params={"self": "obj:SumTree", "upperbound": "real"},
+               requires=["WF(self)", "leaves_nonneg(self)", "0 <= upperbound", "upperbound < Fsum(self, 0, self.capacity)"],
+               ghost={"lo": "0", "span": "self.capacity"},
+               ghost_entry=["use(unfold_sum(self, 0, 0))"],
+               modifies=[], result="int",
+               loops={0: dict(invariant=["geometry(self, idx, lo, span)", "0 <= upperbound",
+                                         "upperbound < Fsum(self, lo, lo + span)",
+                                         "old(upperbound) == Fsum(self, 0, lo) + upperbound"],
+                              ghost_pre=["use(node_fold(self, 2 * idx, lo, span // 2))",
+                                         "use(add_sum(self, lo, lo + span // 2, lo + span))",
+                                         "use(add_sum(self, 0, lo, lo + span // 2))"],
+                              ghost_post=["if idx % 2 == 0:\n    span = span // 2\nelse:\n    span = span // 2\n    lo = lo + span"],
+                              ghost_exit=["use(add_sum(self, 0, lo, lo + 1))"],
+                              havoc_names=["lo", "span"],
+                              decreases="2 * self.capacity - idx")},
+               ensures=["0 <= result", "result < self.capacity",
+                        "Fsum(self, 0, result) <= old(upperbound)", "old(upperbound) < Fsum(self, 0, result + 1)"],
+               witness={**W4, "upperbound": 0.5, "fact:1": "unfold_sum(self, 0, 2)", "fact:2": "unfold_sum(self, 0, 1)",
+                        "fact:3": "unfold_sum(self, 0, 0)"},
+               replay="c11:retrieve")
+    # constructors establish WF
+    for cls, shape, v in (("SumSegmentTree", "SumTree", "0"), ("MinSegmentTree", "MinTree", "INF")):
+        P.contract(ST + cls + ".__init__",
+                   params={"self": lambda ex, st, label, cls=cls: Obj(ST + cls, label="self"), "capacity": "int"},
+                   requires=[], modifies=[],
+                   creates={"self.capacity": "int", "self.tree": "seq[real]",
+                            "self.operation": ("const", Fn(model=py_add if cls == "SumSegmentTree" else py_min,
+                                                           name="operator.add" if cls == "SumSegmentTree" else "min"))},
+                   raises={"AssertionError": "not (capacity > 0 and is_pow2(capacity))"}, raises_iff=True,
+                   ghost_exit=["use(reveal_wf(self))"],
+                   ensures=["WF(self)", "self.capacity == capacity", f"all_leaves(self, {v})"],
+                   frame_fields=False, witness={"capacity": 4}, replay="c11:setitem")
+
+
+# ====================================================================================== PrioritizedReplayBuffer
+def sleaf(b, j):
+    t = b.fields["sum_tree"]
+    return T.LEAF(t.fields["tree"].arr, t.fields["capacity"], j)
+
+
+def mleaf(b, j):
+    t = b.fields["min_tree"]
+    return T.LEAF(t.fields["tree"].arr, t.fields["capacity"], j)
+
+
+def PER_TREES(b):
+    """Structural part: both trees well-formed, same capacity >= max_size, alpha >= 0, max_priority > 0."""
+    f = b.fields
+    s, m = f["sum_tree"], f["min_tree"]
+    return z3.And(WF(s), WF(m), s.fields["capacity"] == m.fields["capacity"], s.fields["capacity"] >= f["max_size"],
+                  f["max_size"] >= 1, f["alpha"] >= 0, f["max_priority"] > 0,
+                  POW(f["max_priority"], f["alpha"]) < T.INF)
+
+
+def PER_LEAVES(b, size):
+    """Stored slots j < size carry one positive priority^alpha in both trees, bounded by max_priority^alpha;
+    every other leaf is neutral (0 in the sum tree, INF in the min tree)."""
+    f = b.fields
+    cap = f["sum_tree"].fields["capacity"]
+    j = z3.Int("j!pl")
+    return z3.ForAll([j], z3.Implies(z3.And(0 <= j, j < cap),
+                                     z3.If(j < size,
+                                           z3.And(sleaf(b, j) > 0, sleaf(b, j) == mleaf(b, j), sleaf(b, j) < T.INF,
+                                                  sleaf(b, j) <= POW(f["max_priority"], f["alpha"])),
+                                           z3.And(sleaf(b, j) == 0, mleaf(b, j) == T.INF))),
+                     patterns=[sleaf(b, j), mleaf(b, j)])
+
+
+def PER_INV(b):
+    f = b.fields
+    return z3.And(R.RB_INV(b), PER_TREES(b), PER_LEAVES(b, f["_size"]), f["tree_ptr"] == f["_cursor"])
+
+
+def leaves_same_except(b, bold, idx):
+    cap = b.fields["sum_tree"].fields["capacity"]
+    j = z3.Int("j!ls")
+    return z3.ForAll([j], z3.Implies(z3.And(0 <= j, j < cap, j != idx),
+                                     z3.And(sleaf(b, j) == sleaf(bold, j), mleaf(b, j) == mleaf(bold, j))),
+                     patterns=[sleaf(b, j), mleaf(b, j)])
+
+
+def ADD_PROGRESS(b, bold, ptr0, i):
+    """Loop invariant of PrioritizedReplayBuffer.add after i of the new rows got their priority: exactly the slots
+    ptr0, ptr0+1, ... (i of them, wrapping at max_size) hold max_priority^alpha; all other leaves are as before."""
+    f = b.fields
+    N, cap = f["max_size"], f["sum_tree"].fields["capacity"]
+    p = POW(f["max_priority"], f["alpha"])
+    j = z3.Int("j!ap")
+    written = z3.Or(z3.And(ptr0 <= j, j < ptr0 + i, j < N), z3.And(j < ptr0 + i - N))
+    return z3.And(
+        f["tree_ptr"] == z3.If(ptr0 + i < N, ptr0 + i, ptr0 + i - N),
+        z3.ForAll([j], z3.Implies(z3.And(0 <= j, j < cap),
+                                  z3.If(written, z3.And(sleaf(b, j) == p, mleaf(b, j) == p),
+                                        z3.And(sleaf(b, j) == sleaf(bold, j), mleaf(b, j) == mleaf(bold, j)))),
+                  patterns=[sleaf(b, j), mleaf(b, j)]))
+
+
+def strata_ok(b, idxs, upto, batch):
+    """Every sampled index (positions < upto) is a stored slot whose mass interval meets its own stratum
+    [k*total/batch, (k+1)*total/batch)."""
+    s = b.fields["sum_tree"]
+    total = Fsum(s, 0, s.fields["capacity"])
+    k = z3.Int("k!st")
+    r = idxs.arr[k]
+    seg = total / z3.ToReal(batch)
+    return z3.ForAll([k], z3.Implies(z3.And(0 <= k, k < upto),
+                                     z3.And(0 <= r, r < b.fields["_size"], sleaf(b, r) > 0,
+                                            Fsum(s, 0, r) < seg * z3.ToReal(k + 1), Fsum(s, 0, r + 1) > seg * z3.ToReal(k))))
+
+
+def idx_in_range(b, idxs):
+    k = z3.Int("k!ir")
+    return z3.ForAll([k], z3.Implies(z3.And(0 <= k, k < idxs.len), z3.And(0 <= idxs.arr[k], idxs.arr[k] < b.fields["_size"])))
+
+
+def weights_ok(b, w, idxs, upto, beta):
+    """w[k] == (N*P(i_k))^-beta / max_j (N*P(j))^-beta  with P(i) = leaf_i / total, and 0 < w[k] <= 1."""
+    s, m = b.fields["sum_tree"], b.fields["min_tree"]
+    cap = s.fields["capacity"]
+    total = Fsum(s, 0, cap)
+    pmin = Fmin(m, 0, cap) / total
+    size = z3.ToReal(b.fields["_size"])
+    k = z3.Int("k!wo")
+    wk = POW(sleaf(b, idxs.arr[k]) / total * size, -beta) / POW(pmin * size, -beta)
+    return z3.ForAll([k], z3.Implies(z3.And(0 <= k, k < upto), z3.And(w.arr[k] == wk, w.arr[k] > 0, w.arr[k] <= 1)))
+
+
+def lem_min_le(t, j):
+    """F_min(0, cap) <= leaf j  (instance of the lemma proved below by induction)."""
+    arr, cap = t.fields["tree"].arr, t.fields["capacity"]
+    return z3.Implies(z3.And(0 <= j, j < cap), T.F_min(arr, cap, 0, cap) <= T.LEAF(arr, cap, j))
+
+
+def lem_sum_ge(t, j):
+    """leaves >= 0  ->  F_sum(0, cap) >= leaf j."""
+    arr, cap = t.fields["tree"].arr, t.fields["capacity"]
+    return z3.Implies(z3.And(0 <= j, j < cap, leaves_nonneg(t)), T.F_sum(arr, cap, 0, cap) >= T.LEAF(arr, cap, j))
+
+
+def lem_min_attained(t):
+    """F_min(0, cap) equals some leaf (so it is one of the stored priorities / INF)."""
+    arr, cap = t.fields["tree"].arr, t.fields["capacity"]
+    j = z3.Int("j!ma")
+    return z3.Implies(cap >= 1, z3.Exists([j], z3.And(0 <= j, j < cap, T.F_min(arr, cap, 0, cap) == T.LEAF(arr, cap, j))))
+
+
+def per_lemmas():
+    arr = z3.Const("arr!M", T.A)
+    c, a, b, j = z3.Ints("c!M a!M b!M j!M")
+    out = []
+    # F_min(a,b) <= arr[c+j] for a <= j < b : induction on b
+    P = lambda hi: z3.Implies(z3.And(a <= j, j < hi), T.F_min(arr, c, a, hi) <= T.LEAF(arr, c, j))
+    out.append(("min_le.base", lambda: ([T.unfold_min(arr, c, a, a + 1)], P(a + 1))))
+    out.append(("min_le.step", lambda: ([b > a, P(b), T.unfold_min(arr, c, a, b + 1)], P(b + 1))))
+    # F_min attained
+    jj = z3.Int("jj!M")
+    Q = lambda hi: z3.Exists([jj], z3.And(a <= jj, jj < hi, T.F_min(arr, c, a, hi) == T.LEAF(arr, c, jj)))
+    out.append(("min_attained.base", lambda: ([T.unfold_min(arr, c, a, a + 1)], Q(a + 1))))
+    out.append(("min_attained.step", lambda: ([b > a, Q(b), T.unfold_min(arr, c, a, b + 1)], Q(b + 1))))
+    # F_sum(a,b) >= arr[c+j] when all leaves in [a,b) are >= 0 : from additivity and non-negativity
+    out.append(("sum_ge", lambda: ([a <= j, j < b, T.add_sum(arr, c, a, j, b), T.add_sum(arr, c, j, j + 1, b),
+                                    T.unfold_sum(arr, c, j, j + 1), T.unfold_sum(arr, c, j, j),
+                                    T.nonneg_sum(arr, c, a, j), T.nonneg_sum(arr, c, j + 1, b),
+                                    z3.ForAll([jj], z3.Implies(z3.And(a <= jj, jj < b), T.LEAF(arr, c, jj) >= 0),
+                                              patterns=[T.LEAF(arr, c, jj)])],
+                                   T.F_sum(arr, c, a, b) >= T.LEAF(arr, c, j))))
+    return out
+
+
+def per_contracts(P):
+    PER = RB + "PrioritizedReplayBuffer."
+    P.specns.update(dict(PER_INV=PER_INV, PER_TREES=PER_TREES, PER_LEAVES=PER_LEAVES, leaves_same_except=leaves_same_except,
+                         ADD_PROGRESS=ADD_PROGRESS, strata_ok=strata_ok, idx_in_range=idx_in_range, weights_ok=weights_ok,
+                         sleaf=sleaf, mleaf=mleaf, min_le=lem_min_le, sum_ge=lem_sum_ge, min_attained=lem_min_attained,
+                         RB_INV=R.RB_INV))
+    for name, mk in per_lemmas():
+        P.lemmas.append((name, mk))
+    P.shape("PER", RB + "PrioritizedReplayBuffer",
+            R.rb_fields({"alpha": "real", "max_priority": "real", "tree_ptr": "int",
+                         "sum_tree": "obj:SumTree", "min_tree": "obj:MinTree"}))
+    R.rb_contracts(P, verify=False)        # ReplayBuffer.add/sample/clear/__len__: verified under C09, used modularly here
+    TW = {"self.max_size": 2, "self.alpha": 1, "self.max_priority": 1, "self.sum_tree.capacity": 2,
+          "self.min_tree.capacity": 2}
+
+    P.contract(PER + "_update_priority",
+               params={"self": "obj:PER", "idx": "int", "priority": "real"},
+               requires=["PER_TREES(self)", "priority > 0", "pow(priority, self.alpha) < INF"],
+               raises={"AssertionError": "not (0 <= idx and idx < self.max_size)"}, raises_iff=True,
+               modifies=["self.sum_tree.tree", "self.min_tree.tree", "self.max_priority"],
+               ensures=["PER_TREES(self)",
+                        "sleaf(self, old(idx)) == pow(priority, self.alpha)", "mleaf(self, old(idx)) == pow(priority, self.alpha)",
+                        "leaves_same_except(self, old(self), old(idx))",
+                        "self.max_priority == (old(self.max_priority) if old(self.max_priority) >= priority else priority)"],
+               replay="c11:per")
+
+    P.contract(PER + "add",
+               params={"self": "obj:PER", "data": R.make_rows},
+               requires=["PER_INV(self)", "len(data) >= 1", "len(data) <= self.max_size"],
+               modifies=["self._storage", "self._cursor", "self._size", "self.counter", "self.initialized", "self.gH",
+                         "self.gtot", "self.sum_tree.tree", "self.min_tree.tree", "self.tree_ptr", "self.max_priority"],
+               loops={0: dict(invariant=["PER_TREES(self)", "RB_INV(self)", "0 <= self.tree_ptr", "self.tree_ptr < self.max_size",
+                                         "ADD_PROGRESS(self, old(self), old(self.tree_ptr), i)",
+                                         "self.max_priority == old(self.max_priority)",
+                                         "self._size == (old(self._size) + n_transitions if old(self._size) + n_transitions < self.max_size else self.max_size)",
+                                         "self._cursor == (old(self._cursor) + n_transitions if old(self._cursor) + n_transitions < self.max_size"
+                                         " else old(self._cursor) + n_transitions - self.max_size)"],
+                              counter="i_done", bind_target=True)},
+               ensures=["PER_INV(self)", "self.max_priority == old(self.max_priority)",
+                        # new transitions get the highest priority seen so far:
+                        "forall(j, 0, self.sum_tree.capacity, implies("
+                        "(old(self.tree_ptr) <= j and j < old(self.tree_ptr) + len(old(data)) and j < self.max_size) or "
+                        "j < old(self.tree_ptr) + len(old(data)) - self.max_size, "
+                        "sleaf(self, j) == pow(old(self.max_priority), self.alpha)))"],
+               replay="c11:per")
+
+    P.contract(PER + "_sample_proportional",
+               params={"self": "obj:PER", "batch_size": "int"},
+               requires=["PER_INV(self)", "self._size >= 1", "batch_size >= 1"],
+               modifies=[], result="seq[int]",
+               ghost_entry=["use(sum_ge(self.sum_tree, 0))"],
+               ghost_after={"total_priority = ": ["check(total_priority > 0)"],
+                            "segment = ": ["arith(segment * batch_size == total_priority)", "arith(segment > 0)"],
+                            "b = ": ["arith(b == a + segment)", "arith(b <= segment * batch_size)", "arith(a >= 0)"],
+                            "upperbound = ": ["arith(upperbound >= a)", "arith(upperbound < b)"],
+                            "idx = ": ["use(add_sum(self.sum_tree, 0, idx, idx + 1))", "use(unfold_sum(self.sum_tree, idx, idx + 1))",
+                                       "use(unfold_sum(self.sum_tree, idx, idx))", "check(sleaf(self, idx) > 0)",
+                                       "check(idx < self._size)", "check(Fsum(self.sum_tree, 0, idx) < b)",
+                                       "check(Fsum(self.sum_tree, 0, idx + 1) > a)"]},
+               loops={0: dict(invariant=["len(indices) == batch_size", "strata_ok(self, indices, i, batch_size)"])},
+               ensures=["len(result) == batch_size", "strata_ok(self, result, batch_size, batch_size)"],
+               replay="c11:per")
+
+    P.contract(PER + "_calculate_weights",
+               params={"self": "obj:PER", "indices": "seq[int]", "beta": "real"},
+               requires=["PER_INV(self)", "self._size >= 1", "beta >= 0", "idx_in_range(self, indices)"],
+               modifies=[], result="seq[real]",
+               ghost_entry=["use(sum_ge(self.sum_tree, 0))", "use(min_attained(self.min_tree))"],
+               loops={0: dict(invariant=["len(weights) == len(indices)", "weights_ok(self, weights, indices, i, beta)"],
+                              ghost_pre=["use(min_le(self.min_tree, indices[i]))"],
+                              counter="i_done", bind_target=True)},
+               ensures=["len(result) == len(indices)", "weights_ok(self, result, indices, len(indices), beta)"],
+               replay="c11:per")
+
+    P.contract(PER + "update_priorities",
+               params={"self": "obj:PER", "indices": "seq[int]", "priorities": "seq[real]"},
+               requires=["PER_INV(self)", "idx_in_range(self, indices)", "len(indices) == len(priorities)",
+                         # finite priorities (A-REAL: 'inf' is a real constant above every finite value)
+                         "forall(k, 0, len(priorities), pow((priorities[k] if priorities[k] >= 1e-5 else 1e-5), self.alpha) < INF)"],
+               modifies=["self.sum_tree.tree", "self.min_tree.tree", "self.max_priority"],
+               loops={0: dict(invariant=["PER_INV(self)", "self.max_priority >= old(self.max_priority)"],
+                              ghost_pre=["mp0 = self.max_priority"],
+                              ghost_post=["check(pow(mp0, self.alpha) <= pow(self.max_priority, self.alpha))",
+                                          "check(pow(priority, self.alpha) <= pow(self.max_priority, self.alpha))",
+                                          "check(pow(priority, self.alpha) > 0)"])},
+               ensures=["PER_INV(self)", "self.max_priority >= old(self.max_priority)"],
+               replay="c11:per")
+
+    P.contract(PER + "sample",
+               params={"self": "obj:PER", "batch_size": "int", "beta": "real"},
+               requires=["PER_INV(self)", "self._size >= 1", "batch_size >= 1", "beta >= 0", "self._storage is not None"],
+               modifies=[], result=R.make_rows,
+               ensures=["len(result) == batch_size",
+                        "strata_ok(self, result['idxs'], batch_size, batch_size)",
+                        "weights_ok(self, result['weights'], result['idxs'], batch_size, beta)",
+                        "forall(k, 0, batch_size, result.seq[k] == self._storage.seq[result['idxs'][k]])"],
+               replay="c11:per")
+
+    # clear() must re-establish the *subclass* invariant (it calls the inherited clear() by its contract)
+    P.contract(PER + "clear",
+               params={"self": "obj:PER"},
+               requires=["PER_INV(self)"],
+               modifies=["self._size", "self._cursor", "self._storage", "self.initialized", "self.gtot",
+                         "self.sum_tree", "self.min_tree", "self.tree_ptr", "self.max_priority"],
+               ensures=["PER_INV(self)", "self._size == 0", "self.max_priority == 1"],
+               frame_fields=False, replay="c11:per")
+
+    P.contract(PER + "__init__",
+               params={"self": lambda ex, st, label: Obj(RB + "PrioritizedReplayBuffer", label="self"),
+                       "max_size": "int", "alpha": "real", "device": "opaque", "dtype": "opaque"},
+               requires=["max_size >= 1", "alpha >= 0"],
+               loops={0: dict(invariant=["tree_capacity >= 1", "is_pow2(tree_capacity)"], decreases="max_size - tree_capacity")},
+               ghost_exit=["self.gtot = 0", "self.gH = H0"],
+               ensures=["PER_INV(self)", "self._size == 0", "self.max_priority == 1"],
+               frame_fields=False, witness={"max_size": 3, "alpha": 0.5}, replay="c11:per")
